@@ -21,7 +21,7 @@ def need(fx, fid):
 def run(ctx):
     fx = ctx.facts("default")
     order.use_facts(fx)
-    fixtures.run(ctx, ['order', 'taint', 'trunc', 'arithmul'])
+    fixtures.run(ctx, ['order', 'taint', 'trunc', 'arithmul', 'dropwrite'])
     R = "R-ORDER"
     f = need(fx, MV + "resize_to_capacity")
     ctx.analysed_fns.add(f.id)
@@ -31,6 +31,14 @@ def run(ctx):
     order.precede(ctx, f, r"fs::File::set_len$", r"::set_capacity$", R, "capacity persisted only after File::set_len")
     order.precede(ctx, f, r"::update_pointers$", r"::set_capacity$", R, "header pointer refreshed before the capacity store")
     order.then_before_ok(ctx, f, r"::set_capacity$", r"MmapVec::<T>::sync$", R, "new capacity synced before success")
+    # open() builds the value before it validates the file, so a refused file is seen by Drop: Drop must not write
+    dr = [i for i in fx.fn_ids("src/memory/mmap_vec.rs") if i.endswith("as std::ops::Drop>::drop") and "MmapVec" in i]
+    if not dr:
+        raise Broken("Drop for MmapVec not found")
+    df = Fn(fx.raw(dr[0]))
+    ctx.analysed_fns.add(df.id)
+    order.forbidden_in(ctx, df, r"fs::write$|Write::write_all$|Write>::write_all$|fs::File::set_len$|fs::File::sync_all$|MmapVec::<T>::sync$",
+                       "R-ORDER.drop", "dropping a MmapVec (also the half-built one of a refused open) does not write to its file")
     f = need(fx, MV + "push")
     ctx.analysed_fns.add(f.id)
     order.precede(ctx, f, r"ptr::write$", r"::set_length$", R, "element written before the length is published")
